@@ -365,17 +365,33 @@ package ttlv
 //@ ghostvar fencCalls int
 //@ ghostvar fencEnc *Encoder
 //@ ghostvar fencTag int
+//@ ghostvar fencVersion *version
 //@ functype func(*ttlv.Encoder, int, reflect.Value)
 //@   params e, tag, v
 //@   ghost fencCalls = old(fencCalls) + 1
 //@   ghost fencEnc = e
 //@   ghost fencTag = tag
+//@   ghost fencVersion = old(e.extension.version)
 
 //@ func applyVersionRangeEncode$1
 //@   requires e != nil && e.extension != nil && ffunc != nil
 //@   ensures old(e.extension.version == nil || inRange(vrange, *e.extension.version)) ==> fencCalls == old(fencCalls)+1 && fencEnc == e && fencTag == tag
 //@   ensures !old(e.extension.version == nil || inRange(vrange, *e.extension.version)) ==> fencCalls == old(fencCalls)
-//@   ghostmod fencCalls, fencEnc, fencTag
+//@   ghostmod fencCalls, fencEnc, fencTag, fencVersion
+
+// a set-version field installs its value as the version of the message every time it is met (not only the
+// first time): the field encoder runs under a freshly installed version, and after a successful decode of the
+// field the decoder carries a freshly installed version
+//@ func applySetVersionEncode$1
+//@   requires e != nil && e.extension != nil && ffunc != nil
+//@   ensures fencCalls == old(fencCalls)+1 && fencEnc == e && fencVersion != nil && isnew(fencVersion)
+//@   ghostmod fencCalls, fencEnc, fencTag, fencVersion
+
+//@ func applySetVersionDecode$1
+//@   requires d != nil && d.extension != nil && ffunc != nil
+//@   ensures fdecCalls == old(fdecCalls)+1 && fdecDec == d
+//@   ensures r0 == nil ==> d.extension.version != nil && isnew(d.extension.version)
+//@   ghostmod fdecCalls, fdecDec, fdecTag
 
 //@ ghostvar fdecCalls int
 //@ ghostvar fdecDec *Decoder
@@ -501,6 +517,7 @@ package ttlv
 
 //@ func (*jsonReader).BigInteger
 //@   requires j != nil
+//@   ensures r1 == nil ==> r0 != nil
 //@   ensures r1 == nil ==> len(j.value)+1 == old(len(j.value))
 //@   modifies j.value, j.current
 
@@ -607,6 +624,7 @@ package ttlv
 
 //@ func (*xmlReader).BigInteger
 //@   requires dec != nil && dec.r != nil
+//@   ensures r1 == nil ==> r0 != nil
 //@   ensures r1 == nil ==> xmlAdvanced == 1
 //@   ghostmod xmlAdvanced
 //@   modifies dec.elem
